@@ -69,6 +69,39 @@ theorem C18_config (lines : List Text) (r wanted : Text) (hwd : firstWord r = so
       configCreate lines (some r) = some { setconf := some (lines ++ [r]), candidates := (denote wanted).toList }) := by
   constructor <;> intro h <;> simp [configCreate, hwd, h]
 
+/-- **Picking without configuring.** `TorConfig.socks_endpoint` answers with the endpoint of the first configured entry
+when no port is named, with the endpoint the named port denotes when some configured entry begins with exactly that
+word, and refuses otherwise — its result type has no room for a SETCONF: it cannot change Tor's configuration. -/
+theorem C18_sync (lines : List Text) (p : Text) (hsp : ' ' ∉ p) :
+    (∀ l0 rest w, lines = l0 :: rest → firstWord l0 = some w → configSync lines none = denote w) ∧
+    (lines ≠ [] → (∃ l ∈ lines, firstWord l = some p) → configSync lines (some p) = denote p) ∧
+    ((∀ l ∈ lines, firstWord l ≠ some p) → configSync lines (some p) = none) ∧
+    configSync [] none = none ∧ configSync [] (some p) = none := by
+  refine ⟨?_, ?_, ?_, rfl, rfl⟩
+  · intro l0 rest w hl hw
+    subst hl
+    simp [configSync, hw]
+  · intro hne hex
+    cases lines with
+    | nil => exact absurd rfl hne
+    | cons l0 rest =>
+      obtain ⟨l, hl, hw⟩ := hex
+      have : ((l0 :: rest).find? fun l => firstWord l = some p).isSome := by
+        rw [List.find?_isSome]; exact ⟨l, hl, by simp [hw]⟩
+      obtain ⟨x, hx⟩ := Option.isSome_iff_exists.mp this
+      simp [configSync, hsp, hx]
+  · intro hall
+    cases lines with
+    | nil => rfl
+    | cons l0 rest =>
+      have : ((l0 :: rest).find? fun l => firstWord l = some p) = none := by
+        rw [List.find?_eq_none]; intro l hl; simpa using hall l hl
+      simp [configSync, hsp, this]
+
+example : configSync ["9050 IsolateDestAddr".toList, "unix:/tmp/s WorldWritable".toList] (some "unix:/tmp/s".toList) = some (.unix "/tmp/s".toList) := by decide
+example : configSync ["9050 IsolateDestAddr".toList] (some "905".toList) = none := by decide
+example : configSync ["9050 IsolateDestAddr".toList] (some "9050 IsolateDestAddr".toList) = none := by decide
+
 /-- a request that is a proper part of a configured port (`905` vs `9050`) is *not* a match -/
 example : configCreate ["9050".toList] (some "905".toList) =
     some { setconf := some ["9050".toList, "905".toList], candidates := [.tcp localhost 905] } := by decide
